@@ -21,8 +21,6 @@ WRAP = ['nowrap', 'wrap', 'wrap-reverse']
 # residual deviations of the implementation from css-flexbox / css-align, by trigger region (reported)
 SIG_COLLR = 'flex:justify-left-right-column'          # open known finding (e)
 SIG_AUTO_TB = 'flex:auto-margin-top-bottom-zeroed'   # step 7 sets auto margin_top/bottom to 0 before step 12/13
-SIG_STRETCH_REV = 'flex:justify-stretch-reverse'      # stretch must behave as flex-start, also under *-reverse
-SIG_FALLBACK_REV = 'flex:fallback-flex-start-reverse'  # space-between fallback is flex-start = main-start side
 
 
 def fnum(x):
@@ -50,8 +48,6 @@ def gen_row(rng, profile):
     wrap = rng.choice([0, 0, 0, 1, 1, 2])
     reverse = rng.random() < 0.25
     kw = rng.choice(['normal', 'flex-start'] + KW)
-    if not wide and reverse and kw in ('stretch', 'space-between'):
-        kw = 'flex-start'
     frac = wide and rng.random() < 0.3
     items = []
     style = rng.choice(['flexy', 'flexy', 'rigid', 'mixed', 'shrinky'])
@@ -84,6 +80,17 @@ def gen_row(rng, profile):
         if wide and rng.random() < 0.15:
             it['pl'], it['pr'] = rng.choice([0, 4, 10]), rng.choice([0, 6])
         items.append(it)
+    if rng.random() < 0.25:
+        # boundary: the first k items fill the main size exactly (hypothetical outer sizes + gaps)
+        k = rng.randint(1, n)
+        tot = 0
+        for it in items[:k]:
+            b = Fraction(it['basis'][1]) * (W if it['basis'][0] == 'pct' else 100) / 100
+            h = max(Fraction(it['min'] or 0), min(b, it['max']) if it['max'] is not None else b)
+            tot += h + sum(it[m] for m in ('ml', 'mr') if it[m] != 'auto') + it['bl'] + it['br'] + it['pl'] + it['pr']
+        tot += (k - 1) * gap
+        if tot == int(tot) and tot > 0 and not any(it['basis'][0] == 'pct' for it in items):
+            W = int(tot)
     return {'col': col, 'W': W, 'gap': gap, 'wrap': wrap, 'reverse': reverse, 'kw': kw, 'items': items,
             'ox': [rng.choice([0, 7]), rng.choice([0, 2]), rng.choice([0, 3])]}
 
@@ -174,10 +181,6 @@ def row_triggers(c, mask):
         return SIG_AUTO_TB
     if c.get('col') and c['kw'] == 'right':
         return SIG_COLLR
-    if c['reverse'] and c['kw'] == 'stretch':
-        return SIG_STRETCH_REV
-    if c['reverse'] and c['kw'] == 'space-between' and mask & 4:
-        return SIG_FALLBACK_REV
     return None
 
 
@@ -200,10 +203,23 @@ def report_known(run, sig, what, data):
         d['witness'].setdefault(sig, data.get('html', '')[:1500])
 
 
-def stream_rows(run, rng, n, profile, name):
-    cases = [gen_row(rng, profile) for _ in range(n)]
-    docs = [{'html': row_html(c)} for c in cases]
-    outs = common.run_impl('impl_c12', 'render_container', docs, limit=60)
+class GatedRun:
+    """run.fail goes through report_known for the grid mechanisms that are analysed in the report (they become
+    failing inputs as soon as their signature is listed as an open finding); everything else is passed on."""
+    def __init__(self, run):
+        self._run = run
+
+    def __getattr__(self, k):
+        return getattr(self._run, k)
+
+    def fail(self, what, data, signature=None):
+        if signature is not None and (signature.startswith('grid:') or
+                                      (signature.startswith('crash:') and 'grid.py' in signature)):
+            return report_known(self._run, signature, what, data)
+        return self._run.fail(what, data, signature=signature)
+
+
+def stream_rows(run, profile, name, cases, docs, outs):
     coq_cases, kept = [], []
     for c, d, (st, o) in zip(cases, docs, outs):
         if st != 'ok':
@@ -250,13 +266,35 @@ def stream_rows(run, rng, n, profile, name):
 def check(run):
     rng = random.Random(run.seed * 7919 + 12)
     thorough = run.tier == 'thorough'
-    common.prove(run, 'C12', ['model/C12Flex.vo', 'model/C12FlexLines.vo', 'model/C12FlexSpec.vo'])
+    common.prove(run, 'C12', ['model/C12Flex.vo', 'model/C12FlexLines.vo', 'model/C12FlexSpec.vo', 'model/C12Grid.vo'])
     run.trusted += ['Coq 8.16.1 kernel (coqc); vm_compute for the cases.v evaluation',
                     'harness/p_c12.py: translation of the generated CSS into model inputs (used flex basis, min/max, extras)']
-    stream_rows(run, rng, 3000 if thorough else 400, 'plain', 'flex-row')
-    stream_rows(run, rng, 2000 if thorough else 200, 'wide', 'flex-row-wide')
-    stream_monitor(run, rng, 3000 if thorough else 300, 'wrap', 'flex-monitor-wrap')
-    stream_monitor(run, rng, 3000 if thorough else 300, 'cross', 'flex-monitor-cross')
+    k = 10 if thorough else 1
+    plan = [('rows', 'plain', 'flex-row', 400 * k), ('rows', 'wide', 'flex-row-wide', 200 * k),
+            ('mon', 'wrap', 'flex-monitor-wrap', 300 * k), ('mon', 'cross', 'flex-monitor-cross', 300 * k),
+            ('mon', 'grid', 'grid-monitor', 300 * k)]
+    batches = []
+    for what, arg, name, n in plan:
+        if what == 'rows':
+            cases = [gen_row(rng, arg) for _ in range(n)]
+            docs = [{'html': row_html(c)} for c in cases]
+        else:
+            cases = [MON[arg][0](rng) for _ in range(n)]
+            docs = [{'html': MON[arg][1](c)} for c in cases]
+        batches.append((what, arg, name, cases, docs))
+    # grid placement and track sizing (models in coq/model/C12Grid.v; streams in harness/p_c12grid.py)
+    import p_c12grid
+    p_c12grid.grid_streams(GatedRun(run), rng, thorough)
+    # one worker pool for all the renders of this run
+    outs = common.run_impl('impl_c12', 'render_container', [d for b in batches for d in b[4]], limit=60)
+    pos = 0
+    for what, arg, name, cases, docs in batches:
+        o = outs[pos:pos + len(docs)]
+        pos += len(docs)
+        if what == 'rows':
+            stream_rows(run, arg, name, cases, docs, o)
+        else:
+            stream_monitor(run, arg, name, cases, docs, o)
 
 
 def replay(data):
@@ -274,7 +312,10 @@ def replay(data):
         m = common.eval_cases('c12replay', PRE, 'row_case', [coq_row_case(c, out)], 'row_judge')
         print('replay: impl', [(i, l, float(x), float(w)) for i, l, x, w in out], 'judge mask', m)
         return 1 if m[0] & 3 else 0
-    if d.get('stream', '').startswith('flex-monitor'):
+    if d.get('stream', '').startswith('grid-place') or d.get('stream', '').startswith('grid-tracks'):
+        import p_c12grid
+        return p_c12grid.grid_replay(d)
+    if d.get('stream', '').startswith('flex-monitor') or d.get('stream') == 'grid-monitor':
         c = d['case']
         gen, html, judge = MON[c['kind']]
         (st, o), = common.run_impl('impl_c12', 'render_container', [{'html': html(c)}])
@@ -396,7 +437,7 @@ def judge_mon_wrap(c, o):
         if can_grow and abs(total - W) > EPS and total < W:
             bad.append(('line-with-growing-item-fills', (total, W)))
     # lines are stacked along the cross axis without overlap, separated by the row gap
-    lys = [(min(_mbox(by[i])[2] for i in ln), max(_mbox(by[i])[3] for i in ln)) for ln in lines]
+    lys = sorted((min(_mbox(by[i])[2] for i in ln), max(_mbox(by[i])[3] for i in ln)) for ln in lines)
     for a, b in zip(lys, lys[1:]):
         if b[0] - a[1] < c['rgap'] - EPS:
             bad.append(('lines-separated-by-gap', (a, b, c['rgap'])))
@@ -475,31 +516,202 @@ def judge_mon_cross(c, o):
 MON = {'wrap': (gen_mon_wrap, mon_wrap_html, judge_mon_wrap), 'cross': (gen_mon_cross, mon_cross_html, judge_mon_cross)}
 
 
-def stream_monitor(run, rng, n, kind, name):
+def stream_monitor(run, kind, name, cases, docs, outs):
     gen, html, judge = MON[kind]
-    cases = [gen(rng) for _ in range(n)]
-    docs = [{'html': html(c)} for c in cases]
-    outs = common.run_impl('impl_c12', 'render_container', docs, limit=60)
     clauses, nbad = {}, 0
     for c, d, (st, o) in zip(cases, docs, outs):
         if st != 'ok':
-            run.fail('flex render %s: %s' % (st, (o or {}).get('site') if o else None),
+            run.fail('render %s: %s' % (st, (o or {}).get('site') if o else None),
                      {'stream': name, 'case': c, 'html': d['html'], 'outcome': o},
                      signature='crash:%s' % ((o or {}).get('site'),) if st == 'exc' else 'timeout')
             continue
         bad = judge(c, o)
         for clause, detail in bad[:1]:
-            nbad += 1
             clauses[clause] = clauses.get(clause, 0) + 1
+            if kind == 'grid' and clause.endswith('partition-container') and any('minmax' in t for t in c['cols'] + c['rows']):
+                # reported: the "find the size of an fr" loop of _resolve_tracks_sizes (1.4) does not restart with
+                # the frozen track's base size removed, so the tracks overflow the container
+                report_known(run, 'grid:fr-freeze-no-restart', 'grid tracks overflow: ' + clause,
+                             {'stream': name, 'case': c, 'html': d['html'], 'clause': clause, 'detail': detail})
+                continue
+            nbad += 1
             if nbad <= 3:
-                run.fail('flex monitor clause %s fails: %s' % (clause, detail),
+                run.fail('monitor clause %s fails: %s' % (clause, detail),
                          {'stream': name, 'case': c, 'html': d['html'], 'clause': clause, 'detail': detail},
-                         signature='flexmon:%s' % clause)
-    feats = [(len(c['items']), c.get('wrap'), c.get('reverse'), c.get('kw'), c.get('align'), c.get('H')) for c in cases]
+                         signature='%smon:%s' % ('grid' if kind == 'grid' else 'flex', clause))
+    feats = [(len(c['items']), c.get('wrap'), c.get('reverse'), c.get('kw'), c.get('align'), c.get('H'), c.get('R'), c.get('C'),
+              tuple(c.get('cols', ()))) for c in cases]
     run.count(name, len(cases), feats, samples=[docs[0]['html'][:800]])
     run.stream_info(name, judged_in='python', failing_clauses=clauses,
                     rule={'wrap': 'row containers with wrap/wrap-reverse/nowrap, reverse, text and empty items, auto margins, '
                                   'order; clauses: order-modified document order, gaps, containment, wrapped line fits, '
                                   'growing line fills, line stacking',
                           'cross': 'single-line row containers, align-items x align-self x auto/definite cross sizes; clauses: '
-                                   'flex-start/flex-end/center/stretch placement, stretch fills the line'}[kind])
+                                   'flex-start/flex-end/center/stretch placement, stretch fills the line',
+                          'grid': 'grids 1..4 x 2..4 with named template areas (guillotine partitions), items placed by '
+                                  'grid-area or by the implicit <area>-start/-end line names, tracks px / fr / minmax(px, fr) / '
+                                  'repeat(), gaps; clauses: disjoint areas do not overlap, shared grid lines give shared '
+                                  'edges (stretch fills the area), adjacent areas one gap apart, fr tracks partition the '
+                                  'container'}[kind])
+
+
+# ------------------------------------------------------------------------------------------ grid monitor
+# Named template areas / implicit area line names / repeat() / minmax(): relational clauses judged in Python
+# (no model): items of disjoint areas do not overlap; items whose areas share a grid line share the edge
+# (stretch fills the area); adjacent areas are one gap apart; with an fr track the tracks partition the container.
+
+def _guillotine(rng, r0, c0, r1, c1, out, depth=0):
+    """split the rectangle of cells [r0,r1) x [c0,c1) into named rectangular areas"""
+    h, w = r1 - r0, c1 - c0
+    if depth >= 3 or (h == 1 and w == 1) or rng.random() < 0.25:
+        out.append((r0, c0, r1, c1))
+        return
+    if w > 1 and (h == 1 or rng.random() < 0.5):
+        k = rng.randint(c0 + 1, c1 - 1)
+        _guillotine(rng, r0, c0, r1, k, out, depth + 1)
+        _guillotine(rng, r0, k, r1, c1, out, depth + 1)
+    else:
+        k = rng.randint(r0 + 1, r1 - 1)
+        _guillotine(rng, r0, c0, k, c1, out, depth + 1)
+        _guillotine(rng, k, c0, r1, c1, out, depth + 1)
+
+
+def gen_mon_grid(rng):
+    R, C = rng.randint(1, 4), rng.randint(2, 4)
+    rects = []
+    _guillotine(rng, 0, 0, R, C, rects)
+    names = 'abcdefghijklmnop'
+    areas = {names[i]: r for i, r in enumerate(rects)}
+
+    def track(allow_fr=True):
+        r = rng.random()
+        if r < 0.45 or not allow_fr:
+            return '%dpx' % rng.choice([20, 30, 50, 70])
+        if r < 0.75:
+            return '%dfr' % rng.choice([1, 1, 2, 3])
+        return 'minmax(%dpx, %dfr)' % (rng.choice([10, 20, 40]), rng.choice([1, 2]))
+    cols = [track() for _ in range(C)]
+    if C >= 2 and rng.random() < 0.3:
+        cols = ['repeat(%d, %s)' % (C, cols[0])]
+        colsx = [cols[0][cols[0].index(',') + 2:-1]] * C
+    else:
+        colsx = cols
+    Hdef = rng.random() < 0.5
+    rows = [track(allow_fr=Hdef) for _ in range(R)]
+    items = []
+    for nm in areas:
+        if rng.random() < 0.85:
+            items.append({'area': nm, 'via': rng.choice(['area', 'area', 'lines'])})
+    if not items:
+        items.append({'area': 'a', 'via': 'area'})
+    for _ in range(rng.choice([0, 0, 1, 2])):
+        items.append({'area': None, 'via': 'auto', 'span': rng.choice([1, 1, 2])})   # auto-placed
+    rng.shuffle(items)
+    return {'kind': 'grid', 'R': R, 'C': C, 'areas': areas, 'cols': cols, 'colsx': colsx, 'rows': rows,
+            'W': rng.choice([300, 400, 500]), 'H': rng.choice([200, 300]) if Hdef else None,
+            'cgap': rng.choice([0, 5, 10]), 'rgap': rng.choice([0, 4, 12]), 'items': items}
+
+
+def mon_grid_html(c):
+    grid = [['.'] * c['C'] for _ in range(c['R'])]
+    for nm, (r0, c0, r1, c1) in c['areas'].items():
+        for r in range(r0, r1):
+            for k in range(c0, c1):
+                grid[r][k] = nm
+    tmpl = ' '.join("'%s'" % ' '.join(row) for row in grid)
+    st = ['display:grid', 'width:%dpx' % c['W'], 'grid-template-areas:%s' % tmpl,
+          'grid-template-columns:%s' % ' '.join(c['cols']), 'grid-template-rows:%s' % ' '.join(c['rows']),
+          'column-gap:%dpx' % c['cgap'], 'row-gap:%dpx' % c['rgap'], 'margin:5px 0 0 11px',
+          'grid-auto-rows:25px', 'grid-auto-columns:25px']
+    if c['H'] is not None:
+        st.append('height:%dpx' % c['H'])
+    out = ['<style>@page{size:3000px 3000px;margin:0}body{margin:0}</style><div id="c" style="%s">' % ';'.join(st)]
+    for i, it in enumerate(c['items']):
+        nm = it['area']
+        if it['via'] == 'auto':
+            s = 'grid-column:span %d' % it['span']
+        elif it['via'] == 'area':
+            s = 'grid-area:%s' % nm
+        else:
+            s = 'grid-column:%s-start / %s-end;grid-row:%s-start / %s-end' % (nm, nm, nm, nm)
+        out.append('<div id="i%d" style="%s"></div>' % (i, s))
+    out.append('</div>')
+    return ''.join(out)
+
+
+def _track_min(t):
+    t = t.replace('minmax(', '')
+    return int(t[:t.index('px')]) if 'px' in t else 0
+
+
+def judge_mon_grid(c, o):
+    bad = []
+    box, recs = o['c'], o['items']
+    if box is None or len(recs) != len(c['items']) or not _numeric(box) or not all(_numeric(r) for r in recs):
+        return [('items-kept-numeric', 'container %s, %d of %d items' % (box is not None, len(recs), len(c['items'])))]
+    cx0 = box['x'] + box['ml'] + box['bl'] + box['pl']
+    cy0 = box['y'] + box['mt'] + box['bt'] + box['pt']
+    by = {int(r['id'][1:]): r for r in recs}
+    rect = {i: (by[i]['x'], by[i]['y'], by[i]['x'] + by[i]['w'], by[i]['y'] + by[i]['h']) for i in by}
+    ar = {i: c['areas'][it['area']] for i, it in enumerate(c['items']) if it['area'] is not None}
+    fits_w = sum(_track_min(t) for t in c['colsx']) + (c['C'] - 1) * c['cgap'] <= c['W']
+    fits_h = c['H'] is not None and sum(_track_min(t) for t in c['rows']) + (c['R'] - 1) * c['rgap'] <= c['H']
+    fr_col = fits_w and any('fr' in t for t in c['colsx'])
+    # auto-placed items may open implicit rows after the template: then the template rows do not fill the height
+    fr_row = (fits_h and any('fr' in t for t in c['rows']) and
+              all(it['area'] is not None for it in c['items']))
+    for i in ar:
+        x0, y0, x1, y1 = rect[i]
+        r0, c0, r1, c1 = ar[i]
+        if x1 < x0 - EPS or y1 < y0 - EPS:
+            bad.append(('non-negative-size', (i, rect[i])))
+        if c0 == 0 and abs(x0 - cx0) > EPS:
+            bad.append(('first-column-at-content-edge', (i, x0, cx0)))
+        if r0 == 0 and abs(y0 - cy0) > EPS:
+            bad.append(('first-row-at-content-edge', (i, y0, cy0)))
+        if fr_col and c1 == c['C'] and abs(x1 - (cx0 + box['w'])) > EPS:
+            bad.append(('columns-partition-container', (i, x1, cx0 + box['w'])))
+        if fr_row and r1 == c['R'] and abs(y1 - (cy0 + box['h'])) > EPS:
+            bad.append(('rows-partition-container', (i, y1, cy0 + box['h'])))
+        if fr_col and (x0 < cx0 - EPS or x1 > cx0 + box['w'] + EPS):
+            bad.append(('item-inside-container', (i, rect[i])))
+    ids = sorted(rect)
+    for a in ids:
+        for b in ids:
+            if a >= b:
+                continue
+            ra, rb = rect[a], rect[b]
+            if a not in ar or b not in ar:
+                # an auto-placed item fills free cells: it overlaps no placed or auto-placed item
+                if min(ra[2], rb[2]) - max(ra[0], rb[0]) > EPS and min(ra[3], rb[3]) - max(ra[1], rb[1]) > EPS:
+                    bad.append(('auto-placed-item-overlaps', (a, b, ra, rb)))
+                continue
+            A, B = ar[a], ar[b]
+            same = c['items'][a]['area'] == c['items'][b]['area']
+            if same:
+                if max(abs(p - q) for p, q in zip(ra, rb)) > EPS:
+                    bad.append(('same-area-same-rectangle', (a, b, ra, rb)))
+                continue
+            # areas of a template are disjoint: the item rectangles must be
+            if min(ra[2], rb[2]) - max(ra[0], rb[0]) > EPS and min(ra[3], rb[3]) - max(ra[1], rb[1]) > EPS:
+                bad.append(('areas-do-not-overlap', (a, b, ra, rb)))
+            if A[1] == B[1] and abs(ra[0] - rb[0]) > EPS:
+                bad.append(('shared-column-start-line', (a, b, ra[0], rb[0])))
+            if A[3] == B[3] and abs(ra[2] - rb[2]) > EPS:
+                bad.append(('shared-column-end-line(stretch fills)', (a, b, ra[2], rb[2])))
+            if A[0] == B[0] and abs(ra[1] - rb[1]) > EPS:
+                bad.append(('shared-row-start-line', (a, b, ra[1], rb[1])))
+            if A[2] == B[2] and abs(ra[3] - rb[3]) > EPS:
+                bad.append(('shared-row-end-line(stretch fills)', (a, b, ra[3], rb[3])))
+            if A[3] == B[1] and abs((rb[0] - ra[2]) - c['cgap']) > EPS:
+                bad.append(('adjacent-columns-one-gap-apart', (a, b, ra[2], rb[0], c['cgap'])))
+            if B[3] == A[1] and abs((ra[0] - rb[2]) - c['cgap']) > EPS:
+                bad.append(('adjacent-columns-one-gap-apart', (b, a, rb[2], ra[0], c['cgap'])))
+            if A[2] == B[0] and abs((rb[1] - ra[3]) - c['rgap']) > EPS:
+                bad.append(('adjacent-rows-one-gap-apart', (a, b, ra[3], rb[1], c['rgap'])))
+            if B[2] == A[0] and abs((ra[1] - rb[3]) - c['rgap']) > EPS:
+                bad.append(('adjacent-rows-one-gap-apart', (b, a, rb[3], ra[1], c['rgap'])))
+    return bad
+
+
+MON['grid'] = (gen_mon_grid, mon_grid_html, judge_mon_grid)
